@@ -96,6 +96,21 @@ class AssignValToPropertyOpcode(AssignPropertyOpcode):
         super().__init__()
         self.opcode = 0x60
 
+    # `set the P = v` always addresses the movie / system property P, also
+    # when the script declares a property of the same name (that one is
+    # assigned by opcode 0x50 and printed as the bare name)
+    def process(self, context: Context, stack: List[Node], \
+                fn: FunctionDef, index: int):
+        name = context.name_list[self.param1]
+        op = BinaryOperation(BinaryOperationNames.ASSIGN, index)
+        if name in get_keys(KNOWN_PROPERTIES):
+            op.left = PropertyAccessorOperation(
+                LocalVariable(KNOWN_PROPERTIES[name], index), name, index)
+        else:
+            op.left = PropertyName(name, index)
+        op.right = stack.pop()
+        fn.statements.append(Statement(op, index))
+
 
 #
 # Assign to parameter Opcode.
